@@ -515,6 +515,16 @@ def judge_crash(case, recovery_content):
             g = call(store.retrieve_object, subject)
             if not g.ok or read_all_and_close(g.value) != case.contents[recovery_content]:
                 probs.append(("recovery-store-not-retrievable", {"retrieve": g.brief()}))
+            else:
+                # 'never wedges': the pid's LATER life is ordinary too - a second delete / store round over whatever
+                # the crash and the first recovery left behind (a stale marker, say)
+                d2 = call(store.delete_object, subject)
+                s2, _e = env.execute(_st(subject, recovery_content))
+                g2 = call(store.retrieve_object, subject) if s2.ok else None
+                if not d2.ok or not s2.ok or not g2.ok or read_all_and_close(g2.value) != case.contents[recovery_content]:
+                    probs.append(("second-recovery-round-failed", {"delete": d2.brief(), "store": s2.brief(),
+                                                                   "retrieve": g2.brief() if g2 is not None else None,
+                                                                   "state": state_label}))
         # the recovery must not have harmed the bystanders either
         view2 = case.bystander_view(case.rundir, subject, store)
         for p, d in bystander_diff(case.bystander_before, view2).items():
